@@ -148,6 +148,65 @@ def run(ctx):
     for (j, b, ref) in bad[:5]:
         res.failures.append({"what": "bytes differ from the published layout when several threads serialise "
                                      "concurrently", "kf": None, "input": {"i": j, "real": b, "reference": ref}})
+    # whole subroutines through bytes(Subroutine) (a different code path than instr.serialize()), and
+    # instruction objects that are serialised, edited in place (incl. their mutable operands) and
+    # serialised again: the bytes must be the published layout of the CURRENT operands
+    def ref_bytes(inst):
+        return H.spec_encode(type(inst).id, H.shape_of(type(inst)), H.instr_to_json(inst)["o"])
+
+    allc = [c for c in H.flavour_classes("nv") if H.T.operand_fields(c)]
+    entc = [c for c in allc if any(k in ("entry", "slice") for k in H.shape_of(c))]
+    for _ in range(300 if ctx.thorough else 60):
+        instrs = []
+        for _k in range(rng.randrange(2, 9)):
+            c = rng.choice(entc if rng.random() < 0.35 else allc)
+            fs = H.T.operand_fields(c)
+            instrs.append(c(**{f.name: rng.choice(H.values_for(k, rng, 1)) for f, k in zip(fs, H.shape_of(c))}))
+        # near-duplicates differing in one value (e.g. -1 / -2) within one subroutine
+        if rng.random() < 0.6:
+            c = rng.choice([x for x in allc if "int32" in H.shape_of(x) or "addr" in H.shape_of(x)])
+            fs = H.T.operand_fields(c)
+            for v in (-1, -2, 0, 1):
+                args = {}
+                for f, k in zip(fs, H.shape_of(c)):
+                    args[f.name] = (H.op.Immediate(v) if k == "int32" else H.op.Address(v) if k == "addr"
+                                    else H.values_for(k, rng, 0)[0])
+                instrs.append(c(**args))
+        app = rng.randrange(65536)
+        steps = []
+        for _round in range(3):
+            res.evaluations += 1
+            res.count("subroutine-bytes")
+            try:
+                rb = list(bytes(H.Subroutine(instructions=instrs, app_id=app)))
+            except Exception:
+                rb = None
+            want = [0, 10, app & 255, app >> 8]
+            try:
+                ver = list(H.Subroutine(instructions=[], app_id=0).netqasm_version)
+                want = ver + [app & 255, app >> 8]
+                for i in instrs:
+                    want += ref_bytes(i)
+            except Exception:
+                want = None
+            if rb != want:
+                res.failures.append({"what": "bytes(Subroutine) differ from the published layout of its current "
+                                             "instructions", "kf": None,
+                                     "input": {"is": [H.instr_to_json(i) for i in instrs], "app": app,
+                                               "edits_before": steps}})
+                break
+            # edit in place and go round again
+            cands = [o for i in instrs for o in i.operands]
+            rng.shuffle(cands)
+            for o in cands:
+                if H.mutate_operand_in_place(o, rng):
+                    steps.append("edit-operand-in-place")
+                    break
+            i = rng.choice(instrs)
+            fs = H.T.operand_fields(type(i))
+            k = rng.randrange(len(fs))
+            setattr(i, fs[k].name, rng.choice(H.values_for(H.shape_of(type(i))[k], rng, 1)))
+            steps.append("assign-field")
     # header after instantiate(): the app id on the wire is the one the subroutine was instantiated for
     from netqasm.lang.parsing.text import parse_text_subroutine
     for _ in range(40 if ctx.thorough else 12):
